@@ -3,6 +3,7 @@ compile_file / bundle vs the Lean resolver model, plus the property itself (subs
 provenance of every combined line, cycles/missing reported) on the real results; and diagnostics
 placed on every line of every file (C14)."""
 import json
+import zlib
 import os
 import re
 import shutil
@@ -80,7 +81,9 @@ def materialise(case, root_dir):
     for p, text in case["files"].items():
         full = os.path.join(root_dir, p)
         os.makedirs(os.path.dirname(full), exist_ok=True)
-        with open(full, "w", encoding="utf-8") as f:
+        # (files as editors on other systems save them: an included file with CRLF or CR line ends is the same text)
+        nl = {0: "\r\n", 1: "\r"}.get(zlib.crc32((case.get("id", "") + p).encode()) % 5) if p != case["root"] else None
+        with open(full, "w", encoding="utf-8", newline=nl) as f:
             f.write(text)
 
 
@@ -455,6 +458,8 @@ DUP_LAYOUTS = [
     ({"story/main.bard": ":: Start\nHi\n@include x/story/main.bard\n\n\n\n:: Hall\nsecond\n",
       "story/x/story/main.bard": ":: Hall\nfirst\n"}, "story/main.bard"),
     ({"main.bard": ":: Start\nHi\n\n:: A\none\n\n\n:: A\ntwo\n"}, "main.bard"),
+    # both definitions stand in the same included file
+    ({"main.bard": ":: Start\nHi\n+ [go] -> Twin\n\n\n\n\n@include ch/twins.bard\n", "ch/twins.bard": "# twins\n:: Twin\nfirst\n\n:: Other\no\n\n:: Twin\nsecond\n"}, "main.bard"),
     # text lines holding characters that str.splitlines() - but not split("\n") - takes for line ends, above the locations listed
     ({"main.bard": ":: Start\nHi\u2028there\nform\x0cfeed\n+ [go] -> A\n\n:: A\none\n@include sub/a.bard\n", "sub/a.bard": "note\x85x\nfs\x1cgs\x1d\n\n:: A\ntwo\n"}, "main.bard"),
     ({"main.bard": "@include a.bard\n@include sub/a.bard\n:: Start\nHi\n", "a.bard": "\n:: A\none\n", "sub/a.bard": "\n\n\n:: A\ntwo\n:: Start\nagain\n"}, "main.bard"),
